@@ -188,7 +188,7 @@
  "backend": "cvc5",
  "props": ["C10"],
  "level": "U",
- "tier": "wip",
+ "tier": "quick",
  "harness": "h_dirhash_loop",
  "loop_contracts": true,
  "defines": ["HT_LOOPS=1", "HT_ALG=0"],
@@ -359,7 +359,7 @@
   "C10"
  ],
  "level": "B(8)",
- "tier": "wip",
+ "tier": "quick",
  "harness": "h_dirhash_eof",
  "defines": [
   "HT_CAP=8",
